@@ -78,7 +78,7 @@ def strip(trace):
     for m in trace:
         if m['k'] == 'proc':
             m = dict(m)
-            m['proc'] = {k: v for k, v in m['proc'].items() if k not in ('margin_switch_on', 'cached_entries')}
+            m['proc'] = {k: v for k, v in m['proc'].items() if k not in ('margin_switch_on', 'cached_entries', 'future_apis')}
         out.append(m)
     return out
 
@@ -128,8 +128,10 @@ def model_cases(cx, scn, out, prev_proc):
     proc = next((m['proc'] for m in out['trace'] if m['k'] == 'proc'), None)
     if proc is not None:
         prev = sw_lit(prev_proc, True) if prev_proc else '{| sw_reinvest := false; sw_cash_return := false; sw_t1 := false |}'
-        cx.case('iso.boot', 'chk_boot %s %s %s %s %s' % (prev, sw_lit(scn['cfg']), sw_lit(proc, True), blit(bool(prev_proc and prev_proc['margin_switch_on'])),
-                                                         blit(proc['env_is_current'])), dict(proc=proc, prev=prev_proc))
+        cx.case('iso.boot', 'chk_boot %s %s %s %s %s %s %s %s' % (prev, sw_lit(scn['cfg']), sw_lit(proc, True), blit(bool(prev_proc and prev_proc['margin_switch_on'])),
+                                                                  blit(proc['env_is_current']), blit('future' in scn['cfg']['base']['accounts']),
+                                                                  blit(bool(prev_proc and prev_proc.get('future_apis'))), blit(bool(proc.get('future_apis')))),
+                dict(proc=proc, prev=prev_proc))
         cfgsw = scn['cfg']['mod']['sys_accounts']
         exp = dict(reinvest=bool(cfgsw.get('dividend_reinvestment', False)), cash_return=bool(cfgsw.get('cash_return_by_stock_delisted', True)), t1=bool(cfgsw.get('stock_t1', True)))
         for k, v in exp.items():
